@@ -189,22 +189,67 @@ def directed(key, limit, rng):
     return seqs
 
 
+def _full_rank(H, unknown, n):
+    M = [h & unknown for h in H]
+    rank = 0
+    for e in range(n):
+        if not (unknown >> e) & 1:
+            continue
+        p = None
+        for r in range(rank, len(M)):
+            if (M[r] >> e) & 1:
+                p = r
+                break
+        if p is None:
+            return False
+        M[rank], M[p] = M[p], M[rank]
+        for r in range(len(M)):
+            if r != rank and (M[r] >> e) & 1:
+                M[r] ^= M[rank]
+        rank += 1
+    return True
+
+
+def all_unknown_equation_sets(key, limit, rng):
+    """received sets that are recoverable although some equation has none of its symbols known (its constant term stays NULL until elimination)"""
+    k, r, H = _esi_rows(key)
+    n = k + r
+    inject = (1 << (n - 1)) if (LDPC[key][2] % 2 == 0 and not LDPC[key][4]) else 0
+    out = []
+    for S in range(1 << n):
+        K = _peel(H, S | inject)
+        U = ((1 << n) - 1) & ~K
+        if U == 0 or (K & ((1 << k) - 1)) == (1 << k) - 1 or not _full_rank(H, U, n):
+            continue
+        if any((h & K) == 0 for h in H):
+            out.append(S)
+    rng.shuffle(out)
+    return out[:limit]
+
+
 def c03_jobs(tier, seed, prop=None, prefix="ml", group_prefix="lbc_finish"):
     """every received subset of a few small codes, then of_finish_decoding; submission API, arrival order and the ML injection order vary"""
     rng = random.Random(seed)
     js = []
-    fam = [("k3r3", 3), ("k4r4", 3), ("k2r5ex", 3)] if tier == "quick" else [("k2r5ex", 3), ("k2r3", 3), ("k3r3", 3), ("k3r4", 3), ("k4r4", 3), ("k4r4e", 3), ("k2r4x", 3), ("k5r4", 3), ("k3r5x", 3)]
+    fam = [("k3r3", 3), ("k4r4", 3), ("k2r5ex", 3), ("k3r5e", 3)] if tier == "quick" else [("k2r5ex", 3), ("k2r3", 3), ("k3r3", 3), ("k3r4", 3), ("k4r4", 3), ("k4r4e", 3), ("k2r4x", 3), ("k5r4", 3), ("k3r5x", 3)]
     for key, codec in fam:
         k, r = LDPC[key][0], LDPC[key][1]
         n = k + r
         for m in subsets(n):
             variants = [(rng.choice((0, 2)), rng.choice(("inc", "dec", "rnd")), [rng.randrange(r) for _ in range(r)])]
-            if tier == "quick" and key == "k4r4" and (m * 7 + seed) % 16 >= 10:    # quick: 160 of the 256 subsets of the largest code (VERIF_SEED rotates them); thorough: all
+            if tier == "quick" and key == "k4r4" and (m * 7 + seed) % 16 >= 8:    # quick: 128 of the 256 subsets of the largest code (VERIF_SEED rotates them); thorough: all
+                continue
+            if tier == "quick" and key == "k3r5e" and ((m >> 7) & 1 or (m * 5 + seed) % 16 >= 10):   # even N1 < n-k (ML can succeed): the last repair symbol is injected anyway; 80 of the 128 remaining subsets
                 continue
             if tier != "quick":
                 variants = [(0, "inc", [0]), (2, "rnd", [rng.randrange(r) for _ in range(r)])]
             for api, order, rnd in variants:
                 js.append(job(prefix, "%s_ldpc" % group_prefix, codec, key, seq_of(m, n, order, rng), api=api, finish=1, rnd=rnd, prop=prop))
+    # recoverable sets in which an equation has no known symbol at all (NULL constant term in the solver), on codes that have such sets
+    for key in (("k1r3", "k3r4", "k3r5x", "k4r6", "k4r8x", "k5r7") if tier == "quick" else ("k1r3", "k3r4", "k3r5x", "k3r5e", "k4r6", "k4r8x", "k5r7")):
+        k, r = LDPC[key][0], LDPC[key][1]
+        for i, m in enumerate(all_unknown_equation_sets(key, 3 if tier == "quick" else 15, rng)):
+            js.append(job(prefix, "%s_ldpc" % group_prefix, 3, key, seq_of(m, k + r, ("inc", "dec", "rnd")[i % 3], rng), api=(0, 2)[i % 2], finish=1, rnd=[rng.randrange(r) for _ in range(r)], prop=prop))
     return dedupe(js)
 
 
